@@ -150,9 +150,9 @@ func (r *ContentReader) parseComments() {
 	}
 	switch {
 	case found:
-		if excluded && !r.inBegin {
-			// The line itself was already excluded by ignore/next-line, none of its text can be kept.
-			r.emptyCurrentLine(lineComments)
+		if excluded {
+			// The line itself was already excluded, none of the text in front of the comment can be kept.
+			r.emptyLinePrefix(lineComments[0].Offset)
 		}
 		switch skip { // nolint: exhaustive
 		case skipFile:
@@ -185,6 +185,15 @@ func (r *ContentReader) parseComments() {
 		r.emptyCurrentLine(nil)
 		if r.autoReset {
 			r.skipNext = false
+		}
+	}
+}
+
+// emptyLinePrefix blanks the first n bytes of the current line.
+func (r *ContentReader) emptyLinePrefix(n int) {
+	for i := 0; i < n && i < len(r.buf); i++ {
+		if r.buf[i] != '\n' {
+			r.buf[i] = ' '
 		}
 	}
 }
